@@ -89,7 +89,8 @@ PROOF_UNITS = {
            + [('contracts.neighbours', k, args, {'mode': m, 't': t})
               for (k, args) in (('HasNode', ('DynGraph',)), ('HasNode', ('DynDiGraph',)), ('NodesAt', ('DynGraph', 'nodes')), ('NodesAt', ('DynDiGraph', 'nodes')),
                                 ('NodesAt', ('DynGraph', 'nodes_iter')), ('NodesAt', ('DynDiGraph', 'nodes_iter')),
-                                ('NumberOfNodes', ('DynGraph',)), ('NumberOfNodes', ('DynDiGraph',)))
+                                ('NumberOfNodes', ('DynGraph',)), ('NumberOfNodes', ('DynDiGraph',)), ('Size', ('DynGraph',)), ('Size', ('DynDiGraph',)),
+                                ('NumberOfInteractionsAll', ('DynGraph',)), ('NumberOfInteractionsAll', ('DynDiGraph',)))
               for m in ('removal', 'accum') for t in ('int', 'none')]
            + [('contracts.neighbours', 'GetNodeSnapshots', (cls,), {'mode': m, 't': 'none'}) for cls in ('DynGraph', 'DynDiGraph') for m in ('removal', 'accum')],
     'C09': [('contracts.writers', 'GenerateSnapshots', (cls,), {}) for cls in ('DynGraph', 'DynDiGraph')]
